@@ -133,7 +133,7 @@ struct World {
   bool in_hook = false;
   uint64_t nalloc = 0;         // allocations seen while armed
   uint64_t alloc_bytes = 0;
-  uint64_t gc_forced = 0, gc_natural = 0;
+  uint64_t gc_forced = 0, gc_natural = 0, gc_max_forced = 0;
   enum GcMode { GC_NONE, GC_POINTS, GC_EVERY, GC_WINDOW, GC_BERNOULLI, GC_AFTERGROW } gc_mode = GC_NONE;
   std::vector<uint64_t> gc_points; size_t gc_pi = 0;
   uint64_t gc_n = 0, gc_off = 0, gc_a = 0, gc_w = 0, gc_p1024 = 0;
@@ -429,6 +429,7 @@ static HeapStats walk_heap(sexp ctx, int phase, bool check_refs) {
 // gc.c hooks
 
 static bool gc_should_force(uint64_t idx) {
+  if (W.gc_max_forced && W.gc_forced >= W.gc_max_forced) return false;
   if (W.gc_scope_step >= 0 && W.cur_step != W.gc_scope_step) return false;
   switch (W.gc_mode) {
     case World::GC_NONE: return false;
@@ -1014,6 +1015,7 @@ static void configure_world(const js::Value& plan) {
     W.heapcheck_every = (int)gc->geti("heapcheck_every", 0);
     W.poison = gc->getb("poison", true);
     W.growth_c = gc->geti("growth_c", 0);
+    W.gc_max_forced = gc->geti("max_forced", 0);
   }
   const js::Value* sc = plan.get("sched");
   if (sc) {
